@@ -137,6 +137,18 @@ fn main() { spawn w(%d); let c = 0; while c < 400 { c = c + 1; g = g + 1; } prin
 		return fmt.Sprintf(`fn r(n: int) -> int { let f = r; if n == 0 { 0 } else { 1 + f(n - 1) } }
 fn main() { println("r", r(%d)); }`, d)
 	}},
+	// a function literal that calls itself through a global (no named function in the cycle)
+	{name: "closure-recursion-via-global", interp: true, depthOf: func(d int) int { return d + 1 }, gen: func(d int) string {
+		return fmt.Sprintf(`let me: ?fn() -> null = none;
+let depth = 0;
+fn main() {
+    me = ?fn() -> null { if depth > 0 { depth = depth - 1; let f = me.unwrap(); f(); } };
+    depth = %d;
+    let g = me.unwrap();
+    g();
+    println("r", depth);
+}`, d)
+	}},
 	{name: "mutual-recursion", interp: true, depthOf: func(d int) int { return d + 1 }, gen: func(d int) string {
 		return fmt.Sprintf(`fn a(n: int) -> int { if n == 0 { 0 } else { 1 + b(n - 1) } }
 fn b(n: int) -> int { if n == 0 { 0 } else { 1 + a(n - 1) } }
@@ -264,6 +276,8 @@ func init() {
 		leakFamily("unused-block-value", "", `{ let q = i; q + 1 }; y = y + 1;`),
 		leakFamily("unused-nested-try-if", "", `try { if i % 3 == 0 { throw("a"); } if i % 3 == 1 { 5 } else { 6 } } catch e { if i > 2 { 7 } else { 8 } }; y = y + 1;`),
 		interpOnly(leakFamily("throwing-argument-caught", "fn bad(i: int) -> int { if i % 2 == 0 { throw(\"x\"); } i }\nfn store(x: int) -> int { x }", `y = y + try { store(bad(i)) } catch e { 0 };`)),
+		interpOnly(leakFamily("throwing-argument-of-closure", "fn bad3(i: int) -> int { if i % 2 == 0 { throw(\"x\"); } i }", `let dbl = fn(x: int) -> int { x * 2 }; y = y + try { dbl(bad3(i)) } catch e { 0 };`)),
+		interpOnly(leakFamily("throwing-argument-of-builtin", "fn bad4(i: int) -> str { if i % 2 == 0 { throw(\"x\"); } \"s\" }", `y = y + try { bad4(i).len() + fmt("%s", bad4(i + 1)).len() } catch e { 0 };`)),
 		interpOnly(leakFamily("throwing-argument-of-method", "fn bad2(i: int) -> str { if i % 2 == 0 { throw(\"x\"); } \"s\" }\nfn keep(a: int, s: str) -> int { a + s.len() }", `y = y + try { keep(i, bad2(i)) } catch e { 0 };`)),
 		leakFamily("return-before-lambda", "fn pick(i: int) -> int { if i % 2 == 0 { return i; } let f = fn(x: int) -> int { x + 1 }; if i % 3 == 0 { return f(i); } f(i) + 1 }", `y = y + pick(i) % 5;`),
 		leakFamily("lambda-made-and-called", "", `let f = fn(x: int) -> int { if x > 3 { return x; } x * 2 }; y = y + f(i % 7) % 5;`),
@@ -662,7 +676,12 @@ func planC09(t *testing.T, tier string, seed uint64) ([]RunSpec, error) {
 			}
 			continue
 		}
-		for _, d := range sizes {
+		fsizes := sizes
+		if strings.HasPrefix(f.name, "wide-frame") {
+			// one frame larger than anything a core may have allocated up front
+			fsizes = append(append([]int{}, sizes...), 320, 700)
+		}
+		for _, d := range fsizes {
 			for backend := 0; backend < 2; backend++ {
 				if backend == 1 && !f.interp || backend == 0 && f.interpOnly {
 					continue
